@@ -60,9 +60,13 @@ def when_error_pair(c, q):
     if len(vals) < 2: return z3.BoolVal(False)
     st, ac = toz3(vals[0]), toz3(vals[1])
     a, s_ = z3.Ints("a!ep s!ep"); q.hyps += [a >= 0, a < NA, s_ >= 0, s_ < N]
-    # row-major digits (Lean ravel2_inj / ravel2_surj): the flat index of (a, s) in an (A, S) array is a*S + s, and div/mod recover the digits
-    j = a * N + s_; k = ac * N + st
-    q.hyps += [j / N == a, j % N == s_, k / N == ac, k % N == st, j >= 0, j < NA * N]
+    # row-major digits (Lean ravel2_inj / ravel2_lt): the flat index of (a, s) in an (A, S) array is a*S + s, and div/mod recover the digits
+    j = z3.Int("j!ep"); k = ac * N + st
+    q.hyps += [j == a * N + s_, j / N == a, j % N == s_, k / N == ac, k % N == st, j >= 0, j < NA * N]
+    # ghost lemma call: the defining property of the argmax node (its body at the argmax >= its body at j), instantiated at the flat index j of (a, s)
+    am = [t for t in R.collect_deep(list(A.SIDE)).values() if R.entry_of(t).kind == "argmax"]
+    q.hyps += R.instance_axioms(am, [j] + am, depth=0) + R.qf_facts(am)
+    q.hyps += [z3.Implies(t == k, z3.And(t / N == ac, t % N == st)) for t in am]
     return absdev(ac, st) >= absdev(a, s_)
 def post_accept(c, q):
     a, s = z3.Ints("a!acc s!acc"); q.hyps += [a >= 0, a < NA, s >= 0, s < N]
@@ -74,8 +78,8 @@ def post_rows_one(c, q):
     q.hyps += [absdev(a, s) <= maxdev(), maxdev() <= c.tol]              # post.accepted_only_within_tolerance (proved separately) instantiated at this row
     q.hyps.append(R.mk("sum", N, lambda t: PS(NE, a, s, t) / rs) == rs / rs)   # sum of c*f = c*sum f for the constant 1/rs (linearity, engine rule 3)
     return R.mk("sum", N, lambda t: toz3(Pm.get((a, s, t)))) == 1
-contract(PB, setup=lambda I: (lambda c: (c.__setitem__("I", I), c)[1])(setup(I)), raises=[("ValueError", when_error, "only_when_some_row_deviates_by_more_than_the_tolerance")],
-    # NOT under deductive contract: "the message names a pair attaining the largest deviation" (when_error_pair) - linking jnp.argmax over the flattened
-    # (A,S) array (symbolic div/mod) with the nested maximum did not close in z3; this clause is checked by the bounded harness only (c17.error_names_pair)
+contract(PB, setup=lambda I: (lambda c: (c.__setitem__("I", I), c)[1])(setup(I)), raises=[("ValueError", when_error, "only_when_some_row_deviates_by_more_than_the_tolerance"), ("ValueError", when_error_pair, "message_names_a_pair_attaining_the_largest_deviation")],
+    # "the message names a pair attaining the largest deviation" (when_error_pair): jnp.argmax over the flattened (A,S) array is linked to the pair by
+    # ghost lemma calls - the argmax node's defining property instantiated at the flat index of an arbitrary pair, row-major digits from Lean ravel2_*
     ensures={"R_expected_reward": post_R, "P_times_rowsum_is_event_mass": post_P, "accepted_only_within_tolerance": post_accept, "returned_rows_sum_to_one": post_rows_one,
              "shapes": lambda c, q: z3.And(*[toz3(x) == y for x, y in zip(c.result[0].shape, (NA, N, N))], *[toz3(x) == y for x, y in zip(c.result[1].shape, (N, NA))])})
